@@ -105,7 +105,8 @@ LEAVES: dict[str, tuple] = {
     "timedelta": (dt.timedelta, [_TD], True),
     "Path": (pathlib.Path, [_PATH], True),
     "Enum": (Color, [Color.RED], True),
-    "Literal": (typing.Literal["a", 2], ["a", 2], True),
+    # conforming values are built at run time: equal to the literal arguments, not the same objects
+    "Literal": (typing.Literal["alpha", 3000], ["".join(["al", "pha"]), int("3000")], True),
     "Any": (typing.Any, [1, "s", None, FOREIGN], False),
     "Missing": (Missing, [MISSING], False),
     "Callable": (cabc.Callable[[int], int], [_fn, len], False),
@@ -323,12 +324,12 @@ def conforms(v, t) -> str:  # noqa: C901, PLR0911, PLR0912, PLR0915
     if k == "Enum":
         return Y if isinstance(v, Color) else N
     if k == "Literal":
-        for lit in ("a", 2):
+        for lit in ("alpha", 3000):
             if type(v) is type(lit) and v == lit:
                 return Y
         try:
-            if v in ("a", 2):
-                return U  # equal but differently typed (2.0, True ...)
+            if v in ("alpha", 3000):
+                return U  # equal but differently typed (3000.0 ...)
         except Exception:
             pass
         return N
